@@ -464,8 +464,8 @@ func checkC10(c *Ctx, r *Report) error {
 			raceNote = fmt.Sprintf("race-detector build of the harness: %.1fs", time.Since(t0).Seconds())
 		}
 	}
-	n := TierN(c.Tier, 240, 4000, 800)
-	rounds := TierN(c.Tier, 2, 10, 3)
+	n := TierN(c.Tier, 480, 4000, 1200)
+	rounds := TierN(c.Tier, 3, 10, 4)
 	cells := TierN(c.Tier, 16, 40, 24)
 	common := []string{"-repo", c.Repo, "-tmp", tmp, "-seed", fmt.Sprint(c.Seed), "-goroutines", "16"}
 	plain, err := runChildren(self, os.Environ(), names,
